@@ -8,6 +8,7 @@ def run(cx):
     S.required_keywords(cx)
     S.layout_refusals(cx)
     S.decode_callargs(cx)
+    S.decode_inventory(cx)     # shape from $TOT x $PAR as given (no clamping), widths, masks
     S.header_fields(cx)
     S.propagation(cx)
     S.tokenizer(cx)        # the odd-count refusal and the padding rule of TEXT-like segments (shared with C14)
